@@ -27,14 +27,14 @@ def _memo_cells():
     return out
 
 
-def reset():
+def reset(keep_files=False):
     """state every path starts from: memo cleared, symbol tables cleared, BLOCK counter 0"""
     for d in _memo_cells():
         d.clear()
     SYMBOL_TABLES.clear()
     Block_Stmt.counter = 0
     v = api.vfs()
-    if v is not None:
+    if v is not None and not keep_files:
         v.reset()
 
 
